@@ -177,6 +177,8 @@ func (e *sweep40) sendRaw(what, by, kind string, other [12]byte, seq uint32, idx
 	snapBefore := ""
 	if misuse == "bad-seqid" {
 		snapBefore = w.snapshot()
+	} else if misuse == "bad-lock-seqid" {
+		snapBefore = normLockSeqidProbe(w.snapshot())
 	}
 	res := w.compound(0, what, ops...)
 	st := opStatus(res, idx)
@@ -205,6 +207,17 @@ func (e *sweep40) sendRaw(what, by, kind string, other [12]byte, seq uint32, idx
 			if after := w.snapshot(); after != snapBefore {
 				e.f.FailP("C19", "misordered-side-effect/"+kind, "%s with a misordered owner sequence number changed state:\n--- before\n%s\n--- after\n%s", what, snapBefore, after)
 			}
+		}
+	}
+	if misuse == "bad-lock-seqid" {
+		// open_seqid in order, lock_seqid of an existing lock-owner out of
+		// order: refused, and nothing but the open-owner's released reply
+		// cache and the renewed lease may change.
+		if st != nfsv4.NFS4ERR_BAD_SEQID {
+			e.f.FailP("C19", "misordered-accepted/"+kind, "%s was answered %d instead of NFS4ERR_BAD_SEQID", what, st)
+		}
+		if after := normLockSeqidProbe(w.snapshot()); after != snapBefore {
+			e.f.FailP("C19", "misordered-side-effect/"+kind, "%s (answered %d) changed state:\n--- before\n%s\n--- after\n%s", what, st, snapBefore, after)
 		}
 	}
 	e.absorb(res)
@@ -513,6 +526,35 @@ func catalogue40() []bad40 {
 	lockNew("LOCK with a lock-owner of another client", "L2", rangeB1, false, func(e *sweep40) uint64 { return e.w.client40("c2").pendID }, 1)
 	add("LOCK with an invalid locker discriminant", func(e *sweep40) nfsv4.Nfsstat4 {
 		return e.sendRaw("LOCK(no locker)", "", "LOCK", [12]byte{}, 0, 1, "", putfh(e.a().leaf.handle), &nfsv4.NfsArgop4_OP_LOCK{Oplock: nfsv4.Lock4args{Locktype: nfsv4.WRITE_LT, Offset: 0, Length: 1}})
+	})
+	// The lock-owner's OWN sequence number inside open_to_lock_owner4:
+	// L1 exists (it holds a lock on a), the request goes through O1's open
+	// of the OTHER file b, so the server has to find the lock-owner and
+	// check lock_seqid against its sequence.
+	for _, d := range []struct {
+		name string
+		seq  func(l *lowner40) uint32
+	}{
+		{"next+1", func(l *lowner40) uint32 { return nextSeq(nextSeq(l.seq)) }},
+		{"last-1", func(l *lowner40) uint32 { return l.seq - 1 }},
+		{"last+76", func(l *lowner40) uint32 { return l.seq + 76 }},
+	} {
+		d := d
+		name := "LOCK open_to_lock_owner4 on b by L1 (exists through a) with lock_seqid " + d.name
+		add(name, func(e *sweep40) nfsv4.Nfsstat4 {
+			b := e.b()
+			seq := nextSeq(e.o1().seq)
+			return e.sendRaw(name, "O1", "LOCK", [12]byte{}, seq, 1, "bad-lock-seqid", putfh(b.leaf.handle), &nfsv4.NfsArgop4_OP_LOCK{Oplock: nfsv4.Lock4args{Locktype: nfsv4.READ_LT, Offset: 1, Length: 1,
+				Locker: &nfsv4.Locker4_TRUE{OpenOwner: nfsv4.OpenToLockOwner4{OpenSeqid: seq, OpenStateid: b.sid, LockSeqid: d.seq(e.c.lowner("L1")),
+					LockOwner: nfsv4.LockOwner4{Clientid: e.c.id, Owner: []byte("L1")}}}}})
+		})
+	}
+	add("LOCK open_to_lock_owner4 on b by L1 (exists through a) with the next lock_seqid", func(e *sweep40) nfsv4.Nfsstat4 {
+		st := e.c.lock(e.f, "O1", "b", "L1", rangeB1, true)
+		if st != nfsv4.NFS4_OK {
+			failBoth(e.f, "sweep/follow-up-refused/LOCK", "NFSv4.0: the well-formed LOCK of b by the existing lock-owner L1 through open-owner O1 (next open_seqid, next lock_seqid) was answered %d", st)
+		}
+		return st
 	})
 
 	// ---- LOCK / LOCKU through the lock state ID ----
